@@ -225,6 +225,21 @@ inline int client_main(int argc, char** argv, const std::vector<Script>& directe
     return 0;
 }
 
+// Naming / tapping private members WITHOUT making the client's build depend on them: if a member has been renamed or
+// removed in the tree under test the statement is skipped (the model then rejects the unnamed events, but the run, the
+// python oracle and the C++ monitors still work, so the failing-input search is not lost to a compile error).
+template <class T, class F>
+void with_member(T& o, F f)
+{
+    if constexpr (std::is_invocable_v<F, T&>) {
+        f(o);
+    }
+}
+#define VERIF_NAME(obj, member, nm) \
+    vclient::with_member(obj, [](auto& x_) -> decltype((void)x_.member) { verif::reg_name(&x_.member, nm); })
+#define VERIF_TAP(obj, member) \
+    vclient::with_member(obj, [](auto& x_) -> decltype((void)x_.member) { verif::tap_add(&x_.member, sizeof(x_.member)); })
+
 // helper: emit call/ret around an operation
 struct CallScope {
     std::string name;
